@@ -145,8 +145,8 @@ class Series(_HasIndex):
     def values(self):
         return SArray(self._v, self.dtype)
 
-    def to_numpy(self):
-        return self.values
+    def to_numpy(self, dtype=None, copy=False, **kw):
+        return self.values if dtype is None else self.values.astype(dtype)
 
     @property
     def shape(self):
@@ -254,6 +254,32 @@ class Series(_HasIndex):
         if inclusive != "both":
             raise Unsupported("between(inclusive=%r)" % (inclusive,))
         return (self >= lo) & (self <= hi)
+
+    def where(self, cond, other=None):
+        """keep the value where cond holds, else take `other` (scalar or aligned Series)"""
+        c = cond.values if isinstance(cond, Series) else cond
+        c = list(c.items) if isinstance(c, SArray) else list(c)
+        if len(c) != len(self._v):
+            raise ValueError("Array conditional must be same shape as self")
+        if isinstance(other, Series):
+            if list(other.index) != list(self.index):
+                raise Unsupported("Series.where with a non-aligned Series")
+            o = list(other._v)
+        elif isinstance(other, SArray):
+            o = list(other.items)
+        else:
+            o = [other] * len(self._v)
+        out = []
+        for v, k, w in zip(self._v, c, o):
+            if isinstance(v, Sym) or isinstance(w, Sym) and not isinstance(v, str) and not isinstance(w, str):
+                out.append(core.ite(k, v, w))
+            else:
+                out.append(v if _truth(k) else w)
+        return Series(out, self.index, self.name)
+
+    def mask(self, cond, other=None):
+        c = cond.values if isinstance(cond, Series) else cond
+        return self.where(~c if isinstance(c, SArray) else [not x for x in c], other)
 
     def notna(self):
         return ~self.isna()
@@ -658,8 +684,8 @@ class DataFrame(_HasIndex):
             rows = [[self._c[c][i] for c in self._c] for i in range(len(self.index))]
         return SArray2(rows, dt, len(self._c))
 
-    def to_numpy(self):
-        return self.values
+    def to_numpy(self, dtype=None, copy=False, **kw):
+        return self.values if dtype is None else self.values.astype(dtype)
 
     @property
     def dtypes(self):
